@@ -12,6 +12,12 @@ RULE = ("TLC model-checks MRImpl.tla (the channel plumbing of core/mr/mapreduce.
         "one environment schedule (operations of the generator / each mapper / the reducer, the context's end, hook-gate "
         "releases) per distinct final state, and every schedule ending stuck or with a failed guard; each is replayed on the "
         "real MapReduce / MapReduceVoid / MapReduceChan / ForEach (gated user functions, quiescence from goroutine states). "
+        "The worker option ranges over its whole domain (not given, 1, n, more than the items, 0, negative: MR!EffWorkers says "
+        "what each means; schedules generated for one worker are replayed with WithWorkers(1 / 0 / -1 / -5 / -2^30) in rotation; "
+        "Finish/FinishVoid with 0..6 functions), the error passed to cancel over the error domain of MR.tla (nil, ordinary values, "
+        "typed-nil pointer/map/func, uncomparable values, fmt.Errorf/errors.Join wrappers, pointer errors passed twice, "
+        "context.Canceled/DeadlineExceeded passed by user code; Layer I chooses the identity in the GenE schedules) and the "
+        "driver reports the identity of the error that came back. "
         "Seeded free-running calls (all six entry points; random sizes, workers, fan-out, reducer shapes, one or two faults at "
         "random positions, stalls, context end before / during / after) and tens of thousands of tiny calls in which "
         "everything the caller selects on becomes ready at once (so that the caller sometimes arrives late) are added. Every recorded trace, including the "
@@ -40,15 +46,25 @@ def _mc(run, cfg, workers, note, expect="ok", timeout=1500):
     return run.model_check(FAM, "MRImpl", cfg, workers=workers, note=note, expect=expect, timeout=timeout)
 
 
-def _wrap(beh, apis, workers, ctx, hook=False):
-    """TLC histories -> driver schedules. apis: function index -> list of entry points."""
+# worker-option values that MR!EffWorkers maps to the same configured count (the cfg's W is one of them): a schedule
+# generated for W is a schedule for every member of its class, and the class of 1 is everything below 2
+W_CLASS = {1: [1, 0, -1, 1, -5, 0, -(1 << 30)]}
+
+
+def _wrap(beh, apis, workers, ctx, hook=False, wrot=True):
+    """TLC histories -> driver schedules. apis: function index -> list of entry points.
+    workers: the W of the generating cfg (the int passed to WithWorkers); wrot: rotate through the option values of
+    the same class (0 and negative counts mean one worker)."""
     out = []
+    n = 0
     for i, steps in enumerate(beh):
         genpanic = any(s.get("op") == "gen" and s.get("a") == "panic" for s in steps)
         for api in apis(i):
             if api == "chan" and genpanic:
                 api = "mr"      # the source of MapReduceChan is the harness's goroutine: it cannot panic inside the library
-            out.append({"api": api, "workers": workers, "ctx": ctx, "hook": hook, "steps": steps})
+            cls = W_CLASS.get(1 if workers < 1 else workers, [workers]) if wrot else [workers]
+            out.append({"api": api, "wset": True, "workers": cls[n % len(cls)], "ctx": ctx, "hook": hook, "steps": steps})
+            n += 1
     return out
 
 
@@ -70,6 +86,9 @@ def _replay(run, scheds, label):
     run.evaluations += ran
     for s in scheds[:ran]:
         run.distinct.add((s["api"], s["workers"], s["hook"], json.dumps(s["steps"], sort_keys=True)))
+        run.extra.setdefault("worker_options_replayed", {})
+        k = str(s["workers"])
+        run.extra["worker_options_replayed"][k] = run.extra["worker_options_replayed"].get(k, 0) + 1
     run.validate(FAM, TRACE[0], TRACE[1], tr, label=label, split=1500)
 
 
@@ -79,8 +98,12 @@ def check(run):
     run.assumptions += [
         "events are ordered by the harness emitter (one mutex): send/write/cancel/ctx '...Start' events are logged before the "
         "library is entered, '...End'/receive/return events after it came back, user-function entry/exit inside the function",
-        "items, written values, cancel errors and panic values are unique sentinels; a reducer writes at most one output "
+        "items, written values and panic values are unique sentinels; an error passed to cancel is identified by the harness "
+        "as a Go value (compared with ==, by type and content where == is undefined, never unwrapped); the library's own "
+        "sentinels (ErrCancelWithNil, ErrReduceNoOutput) are not passed to cancel; a reducer writes at most one output "
         "(more is outside the property)",
+        "worker counts: any int up to 8 through WithWorkers (counts so large that the collector's buffer cannot be allocated "
+        "are outside the check), the package default when the option is absent (read from the package: defaultWorkers)",
         "the context is ended by the harness through context.WithCancel at scripted points (event counts / quiescence), "
         "never by a timer; a context error may be DeadlineExceeded or Canceled",
         "goroutine accounting: with every gate open, only goroutines created by library functions for this call that are "
@@ -103,9 +126,22 @@ def check(run):
                                             "result although a user function panicked", "violation")
         _mc(run, "MRImplBugCtx.cfg", 2, "ended context and closed output both ready: ErrReduceNoOutput returned", "violation")
         _mc(run, "MRImplBugKF.cfg", 4, "guard/send race in guardedWriter.Write: internal panic re-raised (known finding)", "violation")
+        _mc(run, "MRImplBugW0.cfg", 2, "variant clamping negative worker counts only, WithWorkers(0): pool and collector of "
+                                       "capacity 0, nothing is ever mapped, every goroutine and the caller stuck", "violation")
+        _mc(run, "MRImplBugTNil.cfg", 2, "variant whose AtomicError.Set ignores typed-nil errors: cancel(typed nil) cancels the "
+                                         "work but the call returns ErrReduceNoOutput / nil", "violation")
     _mc(run, "MRImplMC2.cfg", w, "repaired design, 2 items 1 worker, cancel+panic: all guards, no stuck state")
+    _mc(run, "MRImplMCw0.cfg", w, "WithWorkers(0), 2 items: one worker (exactly-once, completeness, cap, no stuck state)")
+    _mc(run, "MRImplMCerrQ.cfg", w, "1 item, one cancel with an error out of {nil, ordinary, typed nil, wrapper, "
+                                    "context.DeadlineExceeded passed by user code}: the call returns that identity")
     _mc(run, "MRImplMCfe.cfg", w, "repaired design, ForEach 2 items, 2 panics, context end")
     if thorough:
+        _mc(run, "MRImplMCwneg.cfg", w, "WithWorkers(-3), 2 items, cancel+panic: one worker, all guards, no stuck state")
+        _mc(run, "MRImplMCfeW0.cfg", w, "ForEach WithWorkers(0), 2 items, 2 panics, context end")
+        _mc(run, "MRImplMCerr.cfg", w, "1 item, two cancels (mapper and reducer, possibly the same error value twice) over "
+                                       "the error domain")
+        _mc(run, "MRImplMCerrC.cfg", w, "1 item, one cancel over the error domain (context.DeadlineExceeded passed by user code "
+                                        "included), the call's own context ends at any point")
         _mc(run, "MRImplMC7.cfg", w, "repaired design, 1 item, cancel+panic+context end")
         _mc(run, "MRImplMC1.cfg", w, "repaired design, 1 item, cancel+panic+context+early-writing reducer: guards hold except KF_WriteAfterFinish")
         _mc(run, "MRImplMC3.cfg", w, "no faults, 3 items 2 workers: exactly-once, complete reduction, cap")
@@ -132,11 +168,26 @@ def check(run):
                 ("MRImplGenC.cfg", three, 1, False, None), ("MRImplGenD.cfg", three, 2, True, 3000),
                 ("MRImplGenQ.cfg", three, 1, True, None)]
     gens.append(("MRImplGenFE.cfg", fe, 2, True, None if thorough else 600))
+    # the error domain of cancel: every schedule carries the identity of the error each cancel passes
+    if thorough:
+        gens.append(("MRImplGenEQ.cfg", rot, 1, False, None))       # 2 items, one cancel
+        gens.append(("MRImplGenE.cfg", rot, 1, True, None))         # 1 item, two cancels, context end
+        gens.append(("MRImplGenW.cfg", three, 0, False, None))      # WithWorkers(0), more items than workers
+        gens.append(("MRImplGenFEw.cfg", fe, 0, True, None))        # ForEach, WithWorkers(0 / -1 / ...)
+    else:
+        gens.append(("MRImplGenEQ.cfg", rot, 1, False, 400))
+    small, names = [], []
     for cfg, apis, workers, ctx, cap in (gens if _on("gen") else []):
         beh = run.generate(FAM, "MRImpl", cfg, timeout=1200)
         if cap and len(beh) > cap:
             beh = rnd.sample(beh, cap)
-        _replay(run, _wrap(beh, apis, workers, ctx), "replay-" + cfg[6:-4])
+        sch = _wrap(beh, apis, workers, ctx)
+        if len(sch) <= 700 and not thorough:      # quick: small families share one driver run and one validation
+            small += sch
+            names.append(cfg[9:-4])
+            continue
+        _replay(run, sch, "replay-" + cfg[6:-4])
+    _replay(run, small, "replay-Gen" + "+".join(names))
     # ---- gate-steered schedules (need the proposed gate points; skipped on a tree without them)
     if _on("hook"):
         bad = run.generate(FAM, "MRImpl", "MRImplGenH.cfg")
@@ -170,7 +221,8 @@ LEVEL_TEXT = ("Exhaustive TLC model checking of an implementation-shaped model o
               "leak-freedom; liveness under fairness), with documented counterexamples for the code as it is; conformance by "
               "replaying TLC-generated schedules on the real entry points and validating every recorded trace (replay and "
               "free-running) including the goroutine accounting with TLC against MR.tla.")
-LEVEL_NOTE = ("Bounded at design level: <= 3 items, 1-2 workers, fan-out <= 2, <= 2 cancels, <= 2 panics, one context end. Real "
+LEVEL_NOTE = ("Bounded at design level: <= 3 items, worker option in {-3, 0, 1, 2}, fan-out <= 2, <= 2 cancels (error identities "
+              "nil / ordinary / typed nil / wrapper / user-passed context error), <= 2 panics, one context end. Real "
               "code: schedules TLC generated (run-to-quiescence between user-function operations) plus random free-running "
               "calls; interleavings inside the library that neither produces are reached only through the two proposed gate "
               "points. Trusted: TLC/SANY, Go toolchain, runtime.Stack goroutine states, harness emit order (DESIGN.md A.5).")
